@@ -392,11 +392,30 @@ func (o *Optimizer) buildScanPlan(s Storage) Plan {
 	return fopt.Optimize()
 }
 
+// aggrCallSites collects the function calls of a select field the
+// aggregation plan looks at: the field itself and the operands of binary
+// operators (Optimizer.findAggrFunc, AggregatePlan.listAggrFuncs). An
+// aggregate call anywhere else would be evaluated as a scalar function
+func aggrCallSites(expr Expression, sites map[*FunctionCallExpr]bool) {
+	switch e := expr.(type) {
+	case *BinaryOpExpr:
+		aggrCallSites(e.Left, sites)
+		aggrCallSites(e.Right, sites)
+	case *FunctionCallExpr:
+		sites[e] = true
+	}
+}
+
 // checkFunctionCalls checks every function call inside expr: the function
 // must exist and be called with an argument count it accepts. Aggregate
-// functions are only known where allowAggr is set (select fields).
+// functions are only known where allowAggr is set (select fields), at the
+// places of the field the aggregation plan looks at.
 func checkFunctionCalls(expr Expression, allowAggr bool) error {
 	var ret error
+	aggrSites := map[*FunctionCallExpr]bool{}
+	if allowAggr {
+		aggrCallSites(expr, aggrSites)
+	}
 	expr.Walk(func(e Expression) bool {
 		if ret != nil {
 			return false
@@ -417,7 +436,7 @@ func checkFunctionCalls(expr Expression, allowAggr bool) error {
 		)
 		if f, have := GetScalarFunctionByName(fname); have {
 			numArgs, varArgs, argTypes = f.NumArgs, f.VarArgs, staticArgTypes(fname)
-		} else if f, have := GetAggrFunctionByName(fname); have && allowAggr {
+		} else if f, have := GetAggrFunctionByName(fname); have && aggrSites[fc] {
 			numArgs, varArgs = f.NumArgs, f.VarArgs
 		} else {
 			ret = NewSyntaxError(fc.GetPos(), "Cannot find function %s", fname)
